@@ -437,6 +437,9 @@ def ifWrite (env : Env) (s : State) (address : Nat) (data : Bytes) : State × GR
       | (q, .err e) => ({ s with ifMem := mem, ifQueue := q }, .err e)
       | (_, .panic) => (s, .panic)
 
+/-- `isize::MAX`: the largest size a slice can have (`check_buffer` in ffi/port.rs) -/
+def ISIZE_MAX : Nat := 2 ^ 63 - 1
+
 /-- Which module a port handle designates (`with_port!`). -/
 inductive Module where
   | system | interface
@@ -455,6 +458,27 @@ def portRead (env : Env) (s : State) : Module → Nat → Nat → GR Bytes
 def portWrite (env : Env) (s : State) : Module → Nat → Bytes → State × GR Nat
   | .system => sysWrite env s
   | .interface => ifWrite env s
+
+/-- A write whose claimed size differs from the bytes really present at `pBuffer`: all checks of
+`Port::write` / `write_raw` only look at the length, so the errors are the same; if every check
+passed, `copy_from_slice` would read beyond the caller's buffer — undefined behaviour, `panic`. -/
+def writeDishonest (env : Env) (s : State) (m : Module) (address size : Nat) : GR Nat :=
+  let core (map : MapDecl) (raw : Bytes) : GR Nat :=
+    match checkedAdd (asUsize address) size with
+    | none => .err .invalidAddress
+    | some e =>
+      if e > raw.length then .err .invalidAddress
+      else if !(map.rightOfRange (asUsize address) e).isWritable then .err .accessDenied
+      else .panic
+  match m with
+  | .system => core (sysMap env) s.sysMem
+  | .interface => if !s.ifOpen then .err .notInitialized else core (ifMap env) s.ifMem
+
+/-- `Port::write` on the slice `from_raw_parts(pBuffer, size)` -/
+def portWriteSized (env : Env) (s : State) (m : Module) (address size : Nat) (data : Bytes) :
+    State × GR Nat :=
+  if data.length = size then portWrite env s m address data
+  else (s, writeDishonest env s m address size)
 
 /-! ## Info tables -/
 
@@ -548,15 +572,18 @@ inductive Query where
   | gcGetPortInfo (h : Nat) (cmd : Int)
   | gcGetPortURL (h : Nat)
   | gcGetPortURLInfo (h : Nat) (index : Nat) (cmd : Int)
+  | ifGetDeviceID (h : Nat) (index : Nat)
+  | ifGetDeviceInfo (h : Nat) (id : Bytes) (cmd : Int)
 
 def Query.handle : Query → Nat
   | .tlGetInterfaceID h _ | .tlGetInfo h _ | .tlGetInterfaceInfo h _ _ | .ifGetInfo h _
-  | .gcGetPortInfo h _ | .gcGetPortURL h | .gcGetPortURLInfo h _ _ => h
+  | .gcGetPortInfo h _ | .gcGetPortURL h | .gcGetPortURLInfo h _ _ | .ifGetDeviceID h _
+  | .ifGetDeviceInfo h _ _ => h
 
 /-- does the entry point have a `piType` out-parameter (it calls `copy_info` and stores the type)
 or only the buffer / size pair (`copy_to`)? -/
 def Query.typed : Query → Bool
-  | .tlGetInterfaceID .. | .gcGetPortURL .. => false
+  | .tlGetInterfaceID .. | .gcGetPortURL .. | .ifGetDeviceID .. => false
   | _ => true
 
 inductive Call where
@@ -572,12 +599,27 @@ inductive Call where
   | gcGetNumPortURLs (h : Nat)
   /-- the info queries: what is asked (`Query`) and where the answer goes (`Dst`) -/
   | info (q : Query) (d : Dst)
-  /-- `size` = `*piSize` on entry, `buf` = current contents of the caller's buffer -/
+  /-- `size` = `*piSize` on entry, `buf` = current contents of the caller's buffer
+  (an honest caller has `size ≤ buf.length`) -/
   | gcReadPort (h : Nat) (address : Nat) (size : Nat) (buf : Bytes)
-  | gcWritePort (h : Nat) (address : Nat) (data : Bytes)
+  /-- `size` = `*piSize` on entry, `data` = the bytes at `pBuffer` (honest: `data.length = size`) -/
+  | gcWritePort (h : Nat) (address : Nat) (size : Nat) (data : Bytes)
   /-- entries: (address, size, buffer contents) -/
   | gcReadPortStacked (h : Nat) (entries : List (Nat × Nat × Bytes))
-  | gcWritePortStacked (h : Nat) (entries : List (Nat × Bytes))
+  /-- entries: (address, size, data) -/
+  | gcWritePortStacked (h : Nat) (entries : List (Nat × Nat × Bytes))
+  | ifGetNumDevices (h : Nat)
+  | ifOpenDevice (h : Nat) (id : Bytes)
+  | ifUpdateDeviceList (h : Nat)
+  | ifGetParentTL (h : Nat)
+  /-- exported as `CGCGetInfo` (sic) -/
+  | gcGetInfo
+  /-- The call `c` made with one of its REQUIRED pointer parameters NULL (out-pointers, `piSize`,
+  `piType`, id strings, `pBuffer` of port reads/writes, the stacked entry array or one of its
+  buffers).  Only meaningful for calls that have such a parameter (`GCInitLib`, `GCCloseLib`,
+  `TLClose`, `IFClose` have none).  `pBuffer` of an info query and `sErrorText` may be NULL by
+  the buffer protocol; that is `Dst.buf = none`, not this constructor. -/
+  | nullPtr (c : Call)
 
 /-- What the out-parameters hold after the call. -/
 inductive Out where
@@ -609,20 +651,24 @@ inductive StepRes where
 
 /-- The handle slot a call dereferences (none for the library-level calls and `TLOpen`). -/
 def Call.handle? : Call → Option Nat
-  | .initLib | .closeLib | .getLastError _ | .tlOpen _ => none
+  | .initLib | .closeLib | .getLastError _ | .tlOpen _ | .gcGetInfo | .nullPtr _ => none
   | .tlClose h | .tlUpdateInterfaceList h | .tlGetNumInterfaces h | .tlOpenInterface h _ _ | .ifClose h
-  | .gcGetNumPortURLs h | .gcReadPort h _ _ _ | .gcWritePort h _ _
-  | .gcReadPortStacked h _ | .gcWritePortStacked h _ => some h
+  | .gcGetNumPortURLs h | .gcReadPort h _ _ _ | .gcWritePort h _ _ _
+  | .gcReadPortStacked h _ | .gcWritePortStacked h _ | .ifGetNumDevices h | .ifOpenDevice h _
+  | .ifUpdateDeviceList h | .ifGetParentTL h => some h
   | .info q _ => some q.handle
 
 /-- The out-parameters as the caller initialised them (nothing written). -/
 def Call.untouched : Call → Out
-  | .initLib | .closeLib | .tlOpen _ | .tlClose _ | .tlOpenInterface _ _ _ | .ifClose _ => .plain
+  | .initLib | .closeLib | .tlOpen _ | .tlClose _ | .tlOpenInterface _ _ _ | .ifClose _
+  | .ifOpenDevice _ _ | .ifGetParentTL _ | .gcGetInfo => .plain
+  | .ifGetNumDevices _ | .ifUpdateDeviceList _ => .scalar none
+  | .nullPtr c => c.untouched
   | .getLastError d => .lastError none d
   | .tlUpdateInterfaceList _ | .tlGetNumInterfaces _ | .gcGetNumPortURLs _ => .scalar none
   | .info _ d => .info none d
   | .gcReadPort _ _ size buf => .read size buf
-  | .gcWritePort _ _ data => .write data.length
+  | .gcWritePort _ _ size _ => .write size
   | .gcReadPortStacked _ es => .readStacked es.length (es.map fun e => e.2.2)
   | .gcWritePortStacked _ es => .writeStacked es.length
 
@@ -669,16 +715,19 @@ def readStacked (env : Env) (s : State) (m : Module) :
   | [], n, acc => (n, acc, .ok ())
   | (a, size, buf) :: es, n, acc =>
     match portRead env s m a size with
-    | .ok data => readStacked env s m es (n + 1) (acc ++ [data ++ buf.drop data.length])
+    | .ok data =>
+      -- `buf.copy_from_slice(data)` into the `size` bytes the caller claimed to own
+      if size ≤ buf.length then readStacked env s m es (n + 1) (acc ++ [data ++ buf.drop data.length])
+      else (n, acc, .panic)
     | .err e => (n, acc ++ (buf :: es.map fun x => x.2.2), .err e)
     | .panic => (n, acc, .panic)
 
 /-- `Port::write_stacked` -/
 def writeStacked (env : Env) (m : Module) :
-    State → List (Nat × Bytes) → Nat → State × Nat × GR Unit
+    State → List (Nat × Nat × Bytes) → Nat → State × Nat × GR Unit
   | s, [], n => (s, n, .ok ())
-  | s, (a, data) :: es, n =>
-    match portWrite env s m a data with
+  | s, (a, size, data) :: es, n =>
+    match portWriteSized env s m a size data with
     | (s', .ok _) => writeStacked env m s' es (n + 1)
     | (s', .err e) => (s', n, .err e)
     | (s', .panic) => (s', n, .panic)
@@ -744,6 +793,16 @@ def queryValue (env : Env) (s : State) : Query → GR Val
        | .ok () => if index % 2 ^ 32 ≥ 1 then .err .invalidIndex else urlInfo env m cmd
        | .err e => .err e
        | .panic => .panic)
+    | .err e => .err e
+    | .panic => .panic
+  | .ifGetDeviceID h _ =>
+    match wantInterface (s.slots h) with
+    | .ok () => .err .invalidIndex                -- `devices.get(iIndex)`: the list is empty
+    | .err e => .err e
+    | .panic => .panic
+  | .ifGetDeviceInfo h id _ =>
+    match wantInterface (s.slots h) with
+    | .ok () => .err (.invalidId id)              -- `device_by_id(&id)?`
     | .err e => .err e
     | .panic => .panic
 
@@ -813,30 +872,60 @@ def body (env : Env) (s : State) (c : Call) : Ret :=
        | .panic => ret .panic)
     | .err e => fail e
     | .panic => ret .panic
+  | .ifGetNumDevices h =>
+    match wantInterface (s.slots h) with
+    | .ok () => ret (.ok (.scalar (some 0)))      -- `devices().len()`: never any device
+    | .err e => fail e
+    | .panic => ret .panic
+  | .ifOpenDevice h id =>
+    match wantInterface (s.slots h) with
+    | .ok () => fail (.invalidId id)              -- `device_by_id(&id)?`
+    | .err e => fail e
+    | .panic => ret .panic
+  | .ifUpdateDeviceList h =>
+    match wantInterface (s.slots h) with
+    | .ok () =>
+      -- `assert_open()?`, then `enumerate_u3v_device()?`
+      if s.ifOpen then fail .notImplemented else fail .notInitialized
+    | .err e => fail e
+    | .panic => ret .panic
+  | .ifGetParentTL h =>
+    match wantInterface (s.slots h) with
+    | .ok () => ret (.ok .plain)                  -- the stored parent pointer, whatever its state
+    | .err e => fail e
+    | .panic => ret .panic
+  | .gcGetInfo => fail .notImplemented
+  | .nullPtr _ => fail .invalidParameter          -- `assert_non_null(..)?` / `check_buffer(..)?` come first
   | .info q d =>
     match queryValue env s q with
     | .ok v => ret (if q.typed then infoOut v d else copyOut v d)
     | .err e => fail e
     | .panic => ret .panic
   | .gcReadPort h address size buf =>
+    if size > ISIZE_MAX then fail .invalidParameter else
     match portOf (s.slots h) with
     | .ok m =>
       (match portRead env s m address size with
-       | .ok data => ret (.ok (.read data.length (data ++ buf.drop data.length)))
+       | .ok data =>
+         -- `buffer.copy_from_slice(data)`: writes `size` bytes at `pBuffer`
+         if size ≤ buf.length then ret (.ok (.read data.length (data ++ buf.drop data.length)))
+         else ret .panic
        | .err e => fail e
        | .panic => ret .panic)
     | .err e => fail e
     | .panic => ret .panic
-  | .gcWritePort h address data =>
+  | .gcWritePort h address size data =>
+    if size > ISIZE_MAX then fail .invalidParameter else
     match portOf (s.slots h) with
     | .ok m =>
-      (match portWrite env s m address data with
+      (match portWriteSized env s m address size data with
        | (s', .ok n) => ⟨s', .ok (.write n), c.untouched⟩
        | (s', .err e) => ⟨s', .err e, c.untouched⟩
        | (s', .panic) => ⟨s', .panic, c.untouched⟩)
     | .err e => fail e
     | .panic => ret .panic
   | .gcReadPortStacked h es =>
+    if es.any (fun e => e.2.1 > ISIZE_MAX) then fail .invalidParameter else
     match portOf (s.slots h) with
     | .ok m =>
       (match readStacked env s m es 0 [] with
@@ -846,6 +935,7 @@ def body (env : Env) (s : State) (c : Call) : Ret :=
     | .err e => fail e
     | .panic => ret .panic
   | .gcWritePortStacked h es =>
+    if es.any (fun e => e.2.1 > ISIZE_MAX) then fail .invalidParameter else
     match portOf (s.slots h) with
     | .ok m =>
       (match writeStacked env m s es 0 with
@@ -854,6 +944,15 @@ def body (env : Env) (s : State) (c : Call) : Ret :=
        | (s', _, .panic) => ⟨s', .panic, c.untouched⟩)
     | .err e => fail e
     | .panic => ret .panic
+
+/-- The caller owns what it claims: a read buffer of at least `size` bytes, write data of exactly
+`size` bytes (also per stacked entry).  Trivially true of every other call. -/
+def Call.honest : Call → Bool
+  | .gcReadPort _ _ size buf => decide (size ≤ buf.length)
+  | .gcWritePort _ _ size data => decide (data.length = size)
+  | .gcReadPortStacked _ es => es.all fun e => decide (e.2.1 ≤ e.2.2.length)
+  | .gcWritePortStacked _ es => es.all fun e => decide (e.2.2.length = e.2.1)
+  | _ => true
 
 /-- `no_assert` entry points (only `GCInitLib`). -/
 def Call.noAssert : Call → Bool
